@@ -15,12 +15,13 @@ def run(ctx):
     ctx.cov["rule"] = ("seeded scenarios: (a) matrix v3.1/v3.1.1/v5 x clean x expiry {0,1,3,1000 s; configured 1,3,7200 s} x connection duration (short / longer than "
                        "the expiry) x end {DISCONNECT, DISCONNECT with new expiry, abort, TerminateSession} x reconnect before / after the expiry (>= 500 ms "
                        "away) with a message published while offline and one after; (b) sequential take-overs (v3/v5, clean or not); (c) storms of 2-6 "
-                       "simultaneous CONNECTs on one client id, with and without a stored offline session. TLC validates Session Present, state intact "
+                       "simultaneous CONNECTs on one client id, with and without a stored offline session; (d) scenarios that live through the 20 s expiry sweep "
+                       "(a resumed, connected session survives it; an offline one past its expiry is gone). TLC validates Session Present, state intact "
                        "(subscriptions route, queued QoS1 delivered) and, from the broker's register/unregister/closed events, at most one registered "
                        "connection per id and displaced-closed-before-registered; non-trivial = all scenarios")
     ctx.assumptions += ["real seconds; decisive instants >= 500 ms from deadlines; WinMs = 450 ms either verdict allowed inside the window",
                         "hook events are logged under srv.mu (their order is the broker's order)"]
-    scs = scen.c05_sessions(rng, "s%d" % ctx.seed, 150 if quick else 1500)
+    scs = scen.c05_sweeper(rng, "s%d" % ctx.seed, 4 if quick else 16) + scen.c05_sessions(rng, "s%d" % ctx.seed, 150 if quick else 1500)
     rejected, stats = trace_lib.validate(ctx, scs, "c05", invariants=INV, par=40)
     ctx.cov["traces_validated_against_impl"] += stats["validated"] + stats["rejected"]
     ctx.cov["evaluations"] += stats["events"]
